@@ -10,7 +10,7 @@ from fractions import Fraction
 P1, P2, PR = "Player 1", "Player 2", "Probabilistic"
 # action names are chosen so that some are substrings / prefixes of others ("a" in "ab", "b" in "ab", "a" in "ba"):
 # name-keyed logic that confuses membership with containment then shows up in every universe
-ACTIONS = ("a", "ab", "b", "ba", "aa")
+ACTIONS = ("b", "ab", "a", "ba", "aa")      # not in alphabetical order from the second action on; names contained in one another
 
 VECT_DYADIC = {1: [(1,)], 2: [(0.5, 0.5), (0.25, 0.75)]}
 VECT_3WAY = {1: [(1,)], 2: [(0.5, 0.5), (0.25, 0.75)], 3: [(0.25, 0.25, 0.5), (0.5, 0.25, 0.25)]}
@@ -329,7 +329,7 @@ def U_E_games():
     1-3 successors from {T (wins with tiny probability t), L (lose), V (wins surely)}, as state 0 or behind an entry
     state, numbered ascending and descending (the sweep order decides whether a tiny value is seen before the loop stops)."""
     games = []
-    for t in (5e-10, 2e-7, 4e-7, 9e-7, 3e-6):
+    for t in (5e-10, 2e-7, 4e-7, 9e-7, 3e-6, 0.9999999, 0.9999996):      # the last two: values within 1e-6 BELOW 1 (a value may never be reported above the true one)
         for d in (1, 2, 3):
             for tg in itertools.product("TLV", repeat=d):
                 for kind in (PR, P1):
@@ -461,6 +461,13 @@ def U_N_games():
                 tl.append([(v, W), (round(1 - v, 7), L)])
             tl += [[(1, L)], [(1, W)]]
             games.append(dict(rewards=[0, 1, 5, 50, 0, 0], players=[chooser, PR, PR, PR, PR, PR], transition_list=tl, final_states=[W]))
+    # the reward analogue: three candidates that all reach the goal surely and are worth 1.0, 1.0000008, 1.0000016 (neighbours closer than
+    # 1e-6, the ends further apart; after rounding to 6 digits all three differ), in every order with repetitions
+    rvals = (1.0, 1.0000008, 1.0000016)
+    for combo in itertools.product(rvals, repeat=3):
+        for chooser in (P1, P2):
+            tl = [[(ACTIONS[i], 1 + i) for i in range(3)], [(1, 4)], [(1, 4)], [(1, 4)], [(1, 4)]]
+            games.append(dict(rewards=[0] + list(combo) + [0], players=[chooser, PR, PR, PR, PR], transition_list=tl, final_states=[4]))
     return games
 
 
